@@ -202,7 +202,9 @@ CHECKS = {
                 "Create/Update/Delete, single-row update2, single-row update notifications) - the generator owns the order Go's map "
                 "iteration would pick - and the genuine multi-row update2 batch is applied to a twin cache. After every batch: Rows() = "
                 "content; every Index(cols...) is a partition of exactly the cached uuids (no stale, missing, duplicated or mixed entry); "
-                "RowByModel/RowsByModels by uuid, by schema-index values and by client-index values return exactly what a scan returns; "
+                "RowByModel/RowsByModels by uuid, by schema-index values and by client-index values return exactly what a scan returns; before that, "
+                "RowsByCondition with the values of every index of up to 4 rows - alone, and together with a _uuid condition naming the same or another row - must "
+                "select what a scan (refdb) selects, and must leave the indexes intact for the comparisons that follow; "
                 "values no row holds any more lead nowhere. Non-trivial = history with a batch in which an indexed value changes owner; "
                 "distinct = hash of (index configuration, per-batch path/size/hand-over).",
         "assumptions": COMMON_ASSUMPTIONS + [
@@ -318,7 +320,8 @@ CHECKS = {
         "rule": "cache level, built with -race: 1-3 handlers are registered, the dispatcher runs, and a history of 1-14 notifications computed by "
                 "the reference model (inserts, modifies, deletes incl. GC and weak pruning; update2 and update encodings) is applied while "
                 "the first handler blocks on a harness channel: a drawn word over {apply next notification, release next event, stop the "
-                "dispatcher with events outstanding and start it again (what a disconnect and the next connection do; at most 3 times)} decides how "
+                "dispatcher with events outstanding and start it again (what a disconnect and the next connection do; at most 3 times), feed a notification the cache must refuse "
+                "(insert of a cached row, delete of an unknown row; at most 2): nothing is applied, so no event may follow} decides how "
                 "far the dispatcher lags. Oracles per handler: number of events = number of applied row changes (a missing one is detected "
                 "with the dispatcher released and nothing else outstanding; 20 s bound), replaying the events from empty reproduces Rows() of "
                 "every table and the reference state, per row add -> update* -> delete, update.old = replayed previous state, update old != new, "
@@ -369,7 +372,9 @@ CHECKS = {
                 "selected rows with the right kind, no unselected column, and state-before + message (applied with the harness' own update / "
                 "update2 rules) = state-after on the monitored columns; old values must be the previous values. Failed transactions must "
                 "produce no message at all. TestC07L1: the same pre + update = post law on database.Update for thousands of L1 histories "
-                "(GC, pruning, merges). Non-trivial = transaction with >=2 net row changes (wire) / GC, pruning or multi-operation "
+                "(GC, pruning, merges). TestC07Order (one notification per commit, in commit order, under concurrency): 2-4 connections each commit 1-4 "
+                "increments of one counter at the same time while 2-3 monitoring peers (any method) acknowledge their notifications with drawn delays "
+                "(0-8 ms): every monitor must be told exactly the values 1..N in this order. Non-trivial = transaction with >=2 net row changes (wire) / GC, pruning or multi-operation "
                 "transactions (L1); distinct = hash of (schema kinds, peer requests, history length).",
         "assumptions": COMMON_ASSUMPTIONS + [
             "an RFC 'update' new row is taken as the complete monitored row with absent = default (the server omits default-valued "
@@ -383,6 +388,7 @@ CHECKS = {
         "tests": [
             {"name": "TestC07", "quick": 4000, "thorough": 80000},
             {"name": "TestC07L1", "quick": 6000, "thorough": 120000},
+            {"name": "TestC07Order", "quick": 400, "thorough": 12000, "procs": 8},
         ],
     },
     "C16": {
@@ -402,12 +408,16 @@ CHECKS = {
                 "1-3 monitors, 0-3 foreign transactions, an unplanned reset of every proxied connection; the reconnecting client is parked "
                 "between the reply of its k-th restarted monitor (k drawn) and the application of that reply while 1-3 foreign "
                 "transactions commit (their notifications arrive on the new connection), is released, 0-2 more commit, and the cache "
-                "must converge to the database within 20 s of barriers. Non-trivial = cut after the 6th message (monitor set-up begun) "
+                "must converge to the database within 20 s of barriers. TestC16Leader: 2-3 servers each exporting _Server (its own row, standalone, and the "
+                "database's row, clustered, with a leader flag and server id, inserted in drawn order) and holding different contents; a leader-only client with "
+                "the endpoints in drawn order and one monitor; 1-3 leadership changes (to another member or to nobody; the resignation and the announcement "
+                "in drawn order, with a commit at the new leader): within 20 s the client must be attached to the member that reports leadership with its "
+                "cache equal to that member's database, or to nobody while nobody leads, and must stay so for 50 ms. Non-trivial = cut after the 6th message (monitor set-up begun) "
                 "resp. a parked window with foreign commits inside; distinct = (scenario, direction, k, mode) resp. (monitors, k, foreign kinds).",
         "assumptions": COMMON_ASSUMPTIONS + [
             "enumerated scenarios run without the inactivity probe so that the fault-free message sequence is the same in every run up to the cut",
             "the keep-the-cache path of monitor_cond_since (found=true) is unreachable with libovsdb's server, which always answers found=false",
-            "leader-only mode is not exercised (needs a second server exporting _Server; see DESIGN.md)",
+            "leader-only mode: the cluster is 2-3 independent libovsdb servers whose _Server.Database rows the harness edits; raft itself is not modelled",
             "a Monitor call that fails because of the cut is not re-issued: only monitors that were established are compared",
         ],
         "level_text": "fault enumeration: every message boundary x direction x {after, inside, before} of a fixed session is cut exactly once "
@@ -419,6 +429,7 @@ CHECKS = {
             {"name": "TestC16Fixed", "kind": "plain", "quick": 8, "thorough": 16, "shards": {"quick": 8, "thorough": 16}},
             {"name": "TestC16", "quick": 320, "thorough": 1600},
             {"name": "TestC16ReconnectWindow", "quick": 3000, "thorough": 40000},
+            {"name": "TestC16Leader", "quick": 320, "thorough": 8000, "shards": {"quick": 8, "thorough": 16}},
         ],
     },
     "C17": {
